@@ -567,13 +567,94 @@ def gen_case(r, idx, profile):
     return "case g%d-%s %s\n" % (idx, profile, hdrkv) + "\n".join(g.ev) + "\n"
 
 
+def gen_keepalive_case(r, idx):
+    """A client that meets its own obligations (C12) and then vanishes (C34): connected with a small
+    keep-alive, it sends something within every keep-alive period while active - often traffic the
+    gateway answers without talking to the broker - sleeps (shorter and longer than the keep-alive,
+    sometimes repeating the request) and wakes up in time; at some point it falls silent for good."""
+    g = Gen(r, 'keepalive')
+    ka = r.choice([2, 3, 5])
+    rd = r.choice([200, 1000])
+    rc = r.choice([1, 2])
+    cid = b'c1'
+    hdrkv = "auth=0 rd=%d rc=%d" % (rd, rc)
+    g.sn(connect(cid, ka, False, True))
+    g.mq("connack 0")
+    mid = 10
+    reg = {}
+    kaq = ka * 10                     # keep-alive in units of 100 ms
+
+    def step_gap():
+        # stay inside the keep-alive period
+        return r.choice([1, 2, kaq // 2, kaq - 2, kaq - 1])
+
+    asleep_until = None
+    for _ in range(r.randint(3, 10)):
+        w = r.random()
+        mid += 1
+        if w < 0.2:
+            g.sn(pingreq(), gap=step_gap())
+            if r.random() < 0.9:
+                g.mq("pingresp")
+        elif w < 0.4:
+            # REGISTER: the second one for a name is answered from the gateway's registry
+            name = r.choice([b'a/b', b't/1'])
+            g.sn(register(0, mid, name), gap=step_gap())
+            reg[name] = reg.get(name, len(reg) + 1)
+        elif w < 0.5:
+            g.sn(publish(2, 0x6162, 0, b'x', 0), gap=step_gap())
+        elif w < 0.6:
+            g.sn(puback(1, r.choice([1, 9]), 0), gap=step_gap())        # an acknowledgement nobody waits for
+        elif w < 0.7:
+            g.sn(subscribe(mid, b'a/+', 0, 0, 1), gap=step_gap())
+            g.mq("suback mid=%d hq=0 codes=1" % mid)
+        elif w < 0.8:
+            g.mq("publish dup=0 qos=1 retain=0 mid=%d topic=%s payload=%s" % (mid, H(b'ab'), H(b'B')), gap=step_gap())
+            g.sn(puback(0x6162, mid, 0))
+        else:
+            # a sleep cycle: shorter or longer than the keep-alive, woken up in time
+            # (never a multiple of the keep-alive beyond it: the pinger's last tick and its cancellation
+            # would fall on the same instant, a coin toss in the pinger's select)
+            d = r.choice([1, ka - 1, ka, ka + 1, 2 * ka + 1, 4 * ka + 1])
+            d = max(1, d)
+            g.sn(disconnect(d), gap=step_gap())
+            if r.random() < 0.25:
+                g.sn(disconnect(d), gap=r.choice([1, 3]))                   # the request repeated
+            if r.random() < 0.3:
+                g.mq("publish dup=0 qos=0 retain=0 mid=0 topic=%s payload=%s" % (H(b'ab'), H(b'S')), gap=1)
+            if r.random() < 0.15:
+                # the client never wakes up again
+                g.raw("end", d * 10 + 3 * kaq + 20)
+                return "case g%d-keepalive %s\n" % (idx, hdrkv) + "\n".join(g.ev) + "\n"
+            g.sn(pingreq(cid), gap=r.choice([d * 10 - 1, d * 10 // 2 + 1, max(1, d * 10 - 3)]))
+            v = r.random()
+            if v < 0.5:
+                g.sn(connect(cid, ka, False, True), gap=r.choice([1, 2]))
+            elif v < 0.8:
+                # asleep again at once (the gateway treats the client as asleep after PINGRESP); next cycle
+                g.sn(disconnect(max(1, ka - 1)), gap=1)
+                g.sn(pingreq(cid), gap=max(1, (ka - 1) * 10 - 2))
+                g.sn(connect(cid, ka, False, True), gap=1)
+            else:
+                g.raw("end", 3 * kaq + 20)
+                return "case g%d-keepalive %s\n" % (idx, hdrkv) + "\n".join(g.ev) + "\n"
+    # the client vanishes: the case goes on long enough for a keep-alive-enforcing broker to notice
+    if r.random() < 0.4:
+        g.raw("mqeof", 3 * kaq // 2 + 3)
+        g.raw("end", 5)
+    else:
+        g.raw("end", 3 * kaq + 20)
+    return "case g%d-keepalive %s\n" % (idx, hdrkv) + "\n".join(g.ev) + "\n"
+
+
 def main():
     seed, n, profile = int(sys.argv[1]), int(sys.argv[2]), sys.argv[3]
     r = random.Random(seed * 1000003 + sum(profile.encode()) % 1000)  # (str hash is salted per process)
     profiles = [profile] if profile != 'mix' else ['mix', 'mix', 'connect', 'ids', 'long', 'collide']
     out = []
     for i in range(n):
-        out.append(gen_case(r, i, r.choice(profiles)))
+        pr = r.choice(profiles)
+        out.append(gen_keepalive_case(r, i) if pr == 'keepalive' else gen_case(r, i, pr))
     sys.stdout.write("".join(out))
 
 
